@@ -64,6 +64,7 @@ type Contract struct {
 	Common   *Behaviour
 	Behs     []*Behaviour
 	Props    []string // property ids this contract serves
+	Keeps    []string // ghost states assumed untouched by opaque callees
 }
 
 type SpecFunc struct {
@@ -98,7 +99,7 @@ type SpecFile struct {
 	Axioms    []*Axiom
 }
 
-var kwRe = regexp.MustCompile(`^(macro|ghost|func|requires|ensures|assigns|invariant|loop|behaviour|behavior|spec|axiom|lemma|decreases|inline|trusted|overflow|nopanic|props|panics|assert|rec)\b`)
+var kwRe = regexp.MustCompile(`^(keeps|macro|ghost|func|requires|ensures|assigns|invariant|loop|behaviour|behavior|spec|axiom|lemma|decreases|inline|trusted|overflow|nopanic|props|panics|assert|rec)\b`)
 
 var sigRe = regexp.MustCompile(`^(\w+)\s*\(([^)]*)\)\s*(\S+)?\s*(?:=\s*(.*))?$`)
 
@@ -196,6 +197,13 @@ func ParseSpecFile(path, pkg string) (*SpecFile, error) {
 		case "props":
 			if cur != nil {
 				cur.Props = strings.Fields(rest)
+			}
+		case "keeps":
+			// keeps g1, g2: assumption that calls without a contract made by this function leave these ghost states unchanged
+			if cur != nil {
+				for _, g := range splitTop(rest) {
+					cur.Keeps = append(cur.Keeps, strings.TrimSpace(g))
+				}
 			}
 		case "behaviour", "behavior":
 			if err := needBeh(); err != nil {
